@@ -36,7 +36,9 @@ RULE = ("degrees 0..6 x four abscissa layouts in [-2,2] (uniform, clustered, Che
         "mismatched inputs; replicated small-integer designs (levels in -3..3 with multiplicities, found by brute force) whose "
         "X^T X has an exactly-zero entry with non-zero Cholesky fill-in; predict (set-coefficient and after-fit routes) and fit on long "
         "inputs of pairwise distinct abscissae covering every residue mod 8 (thorough: every length) in 256..300, 500..560, 1000..1040, "
-        "4090..4110 and 1999..2001, every output slot checked against the exact Horner value at its own abscissa; predict on coefficient lists of length 0..9 incl. special values; non-trivial = distinct "
+        "4090..4110 and 1999..2001, every output slot checked against the exact Horner value at its own abscissa; equally spaced grids x0 + i h, ascending and descending (h = 2^-4..2^-10, "
+        "linspace(-2,2,n) for n = 257, 513, 1025, 2049 and general n, steps 0.25..2^-9, n = 16..2100, degrees 1..6, real and integer coefficients, "
+        "both predict routes); predict on coefficient lists of length 0..9 incl. special values; non-trivial = distinct "
         "(op, layout, degree, size class, noise class)")
 EXHAUSTIVE = {"quick": False, "thorough": False}
 NOT_PROVED = [
@@ -269,6 +271,11 @@ def corpus():
     xi = [-2.0, -1.0, 0.0, 1.0, 2.0, -2.0, 1.0]
     L.append("fit corpus:cubic 3 %s %s" % (vec(xi), vec([1.0 - 2.0 * v + 3.0 * v ** 3 for v in xi])))
     L.append("vander corpus:v 4 %s" % vec([2.0, -1.5, 0.0]))
+    # equally spaced grids with a dyadic step (all consecutive differences bit-for-bit equal), non-round coefficients
+    L.append("predict corpus:grid:linspace1025:k6 %s %s" % (vec([0.7310585786300049, -1.2247448713915890, 0.5772156649015329, 1.6180339887498949, -0.6931471805599453, 0.3183098861837907]),
+                                                            vec([-2.0 + i * (4.0 / 1024) for i in range(1025)])))
+    L.append("predict corpus:grid:step2^-9:n2000:k7 %s %s" % (vec([-0.4342944819032518, 0.9189385332046727, -1.4142135623730951, 0.2718281828459045, 0.8660254037844386, -0.5403023058681398, 0.1234567890123457]),
+                                                            vec([-2.0 + i * 2.0 ** -9 for i in range(2000)])))
     # long inputs of predict whose length is not a multiple of 8: output slot i belongs to abscissa i, also in the tail
     for n in (257, 1001):
         xs = [-2.0 + 4.0 * ((i * 389) % n) / n for i in range(n)]      # distinct, scrambled
@@ -439,6 +446,73 @@ def gen_long(rng, tier, cover):
     return L
 
 
+# ----------------------------------------------------------------------------- equally spaced grids (predict / fit+predict)
+def grid_points(x0, h, n, desc=False):
+    """x0 + i*h evaluated in floating point; for dyadic h and x0 every point and every consecutive difference is exact"""
+    xs = [x0 + i * h for i in range(n)]
+    return xs[::-1] if desc else xs
+
+
+def random_grid(rng, big):
+    """-> (tag, points): an equally spaced grid inside [-2, 2.2]"""
+    r = rng.randint(0, 3)
+    if r == 0:       # dyadic step 2^-k, as many points as fit (capped)
+        k = rng.randint(4, 10)
+        h = 2.0 ** -k
+        nmax = int(4.0 / h) + 1
+        n = min(nmax, rng.randint(256, 2100)) if big else min(nmax, rng.randint(16, 255))
+        x0 = -2.0 + h * rng.randint(0, max(0, nmax - n))
+        tag = "dyadic%d" % k
+    elif r == 1:     # linspace(-2, 2, n), n - 1 a power of two: step 4/(n-1) is dyadic
+        n = rng.choice([257, 513, 1025, 2049]) if big else rng.choice([17, 33, 65, 129])
+        h, x0, tag = 4.0 / (n - 1), -2.0, "linspace"
+    elif r == 2:     # decimal-looking exactly representable steps
+        h = rng.choice([0.25, 0.125, 0.0625, 0.03125]) if not big else rng.choice([0.0078125, 0.00390625, 0.001953125])
+        nmax = int(4.0 / h) + 1
+        n = min(nmax, rng.randint(256, 2100)) if big else min(nmax, rng.randint(16, 255))
+        x0, tag = -2.0, "step%g" % h
+    else:            # non-dyadic step: linspace(-2, 2, n) for general n (differences are not all equal)
+        n = rng.randint(256, 2100) if big else rng.randint(16, 255)
+        h, x0, tag = 4.0 / (n - 1), -2.0, "general"
+    desc = rng.chance(0.35)
+    return "%s:%s" % (tag, "desc" if desc else "asc"), grid_points(x0, h, n, desc)
+
+
+def grid_lines(rng, big, cover, route):
+    tag, xs = random_grid(rng, big)
+    d = rng.randint(1, 6)
+    if rng.chance(0.3):
+        c = [float(rng.randint(-9, 9)) for _ in range(d)] + [float(rng.choice([-3, -1, 1, 2, 5]))]
+        ck = "int"
+    else:
+        c = [rng.normal() * 10.0 ** rng.randint(-1, 1) for _ in range(d + 1)]
+        ck = "real"
+    cover["grid"] = cover.get("grid", 0) + 1
+    if route == "predict":
+        return "predict grid:%s:n%d:k%d:%s %s %s" % (tag, len(xs), d + 1, ck, vec(c), vec(xs))
+    m = d + 1 + rng.randint(0, 20)
+    x = layout(rng, "uniform", m)
+    y = [horner_f(c, v) + 0.05 * rng.normal() for v in x]
+    return "fitpred grid:%s:n%d:d%d %d %s %s %s" % (tag, len(xs), d, d, vec(x), vec(y), vec(xs))
+
+
+def gen_grid(rng, tier, cover):
+    L = []
+    nbig, nsmall = (28, 16) if tier == "quick" else (500, 200)
+    for j in range(nbig):
+        L.append(grid_lines(rng, True, cover, ("predict", "predict", "fitpred")[j % 3]))
+    for j in range(nsmall):
+        L.append(grid_lines(rng, False, cover, ("predict", "fitpred")[j % 2]))
+    # the named grids, every run: linspace(-2, 2, n) for n - 1 a power of two, degrees 4..6, both routes
+    for n in (257, 513, 1025, 2049):
+        for d in (4, 5, 6) if tier != "quick" else (rng.choice([4, 5]), 6):
+            c = [rng.normal() for _ in range(d + 1)]
+            xs = grid_points(-2.0, 4.0 / (n - 1), n, rng.chance(0.3))
+            L.append("predict grid:linspace:named:n%d:k%d:real %s %s" % (n, d + 1, vec(c), vec(xs)))
+            cover["grid"] = cover.get("grid", 0) + 1
+    return L
+
+
 def gen(rng, tier):
     cover = {}
     lines = []
@@ -462,6 +536,7 @@ def gen(rng, tier):
         lines.append("vander %s:n%d %d %s" % (kind, n, n, vec(layout(rng, kind, rng.randint(0, 10)))))
     lines += gen_strata(rng, tier, cover)
     lines += gen_long(rng, tier, cover)
+    lines += gen_grid(rng, tier, cover)
     rng.shuffle(lines)
     return lines, cover
 
